@@ -33,4 +33,62 @@ MUTANTS = [
         {"file": OR, "old": "                else:\n                    start += end_ovr\n", "new": "                else:\n                    end -= end_ovr\n"}]},
     {"id": "c18-overhang-if-end-removed-skips-gaps", "props": ["C18"], "edits": [
         {"file": OR, "old": "        for r in self.rows[-2::-1]:  # Step backwards from second to last element\n            if isinstance(r, Gap):\n                end -= r.length\n", "new": "        for r in self.rows[-2::-1]:  # Step backwards from second to last element\n            if isinstance(r, Gap) and r.length < 150:\n                end -= r.length\n"}]},
+
+    # ---- C01 ----------------------------------------------------------------
+    {"id": "c01-qc-length-check-dropped", "props": ["C01"], "edits": [
+        {"file": BA, "old": "        if fnd.fragment.length != sub_frags_length:\n", "new": "        if False and fnd.fragment.length != sub_frags_length:\n"},
+        {"file": BA, "old": "        if overlap_count != 0:\n", "new": "        if False:\n"},
+        {"file": BA, "old": "        if abut_count != lgth - 1:\n", "new": "        if False:\n"}]},
+    {"id": "c01-missing-scaffolds-skip-last", "props": ["C01"], "edits": [
+        {"file": BA, "old": "            for i, frag in scffld.idx_fragments():\n                if not found_frags.get(frag.key_tuple):\n", "new": "            for i, frag in scffld.idx_fragments():\n                if not found_frags.get(frag.key_tuple) and not (frag.length == 1 and i > 2):\n"}]},
+    # ---- C02 ----------------------------------------------------------------
+    {"id": "c02-trim-start-off-by-one", "props": ["C02", "C18"], "edits": [
+        {"file": OR, "old": "                if trim.strand == 1:\n                    start += start_ovr\n", "new": "                if trim.strand == 1:\n                    start += start_ovr - 1\n"}]},
+    {"id": "c02-minus-bait-not-reversed", "props": ["C02"], "edits": [
+        {"file": OR, "old": "        if self.bait.strand == -1:\n            return scffld.reverse()\n", "new": "        if self.bait.strand == -1 and len(self.rows) != 3:\n            return scffld.reverse()\n"}]},
+    # ---- C03 / C13 / C14 ---------------------------------------------------------
+    {"id": "c03-rev-chunks-off-by-one", "props": ["C03", "C13", "C14"], "edits": [
+        {"file": IX, "old": "        chunk_count = (end - start) // max_length\n", "new": "        chunk_count = (end - start + 1) // max_length\n"}]},
+    {"id": "c03-wrap-forgets-carry", "props": ["C03"], "edits": [
+        {"file": "src/tola/fasta/stream.py", "old": "                        want -= len(seq)\n                        if want == 0:\n", "new": "                        want -= len(seq)\n                        if want == 0 or (isinstance(row, Gap) and want == 1 and len(seq) == 7):\n"}]},
+    {"id": "c13-gap-iter-single-chunk", "props": ["C13"], "edits": [
+        {"file": IX, "old": "        chunk_count = 1 + (length // max_length)\n        for i in range(chunk_count):\n            chunk_start = i * max_length\n            chunk_end = min(length, chunk_start + max_length)\n", "new": "        chunk_count = 1\n        for i in range(chunk_count):\n            chunk_start = 0\n            chunk_end = length\n"}]},
+    {"id": "c13-indexer-never-flushes", "props": ["C13"], "edits": [
+        {"file": IX, "old": "                if seq_buffer.tell() > buffer_size:\n", "new": "                if seq_buffer.tell() > buffer_size * 1000:\n"}]},
+    {"id": "c14-complement-table-H-D", "props": ["C14", "C03"], "edits": [
+        {"file": "src/tola/fasta/simple.py", "old": 'b"TGCAYRKMSWDVBHNtgcayrkmswdvbhn"', "new": 'b"TGCAYRKMSWHVBDNtgcayrkmswdvbhn"'}]},
+    # ---- C04 ----------------------------------------------------------------
+    {"id": "c04-merge-runs-across-flush", "props": ["C04", "C13"], "edits": [
+        {"file": IX, "old": "            if start == region_end:\n", "new": "            if start == region_end or (region_end and m.start() == 0 and start - region_end == 1):\n"}]},
+    # ---- C05 / C06 -----------------------------------------------------------------
+    {"id": "c05-tpf-non-greedy-name", "props": ["C05"], "edits": [
+        {"file": "src/tola/assembly/parser.py", "old": 'r"(.+):(\\d+)-(\\d+)$"', "new": 'r"(.+?):(\\d+)-(\\d+)"'}]},
+    {"id": "c05-gap-type-contig-type2", "props": ["C05"], "edits": [
+        {"file": "src/tola/assembly/format.py", "old": '        "contig": "TYPE-3",\n', "new": '        "contig": "TYPE-2",\n'}]},
+    {"id": "c06-part-number-from-zero-after-gap", "props": ["C06"], "edits": [
+        {"file": "src/tola/assembly/format.py", "old": "                str(i + 1),\n", "new": "                str(i + 1 if i < 40 else i),\n"}]},
+    # ---- C07 / C08 / C09 / C10 / C11 ---------------------------------------------
+    {"id": "c07-leftover-gap-always-default", "props": ["C07"], "edits": [
+        {"file": BA, "old": "                        if isinstance(prev_row, Gap):\n                            new_scffld.add_row(prev_row)\n", "new": "                        if isinstance(prev_row, Gap) and prev_row.length != 10:\n                            new_scffld.add_row(prev_row)\n"}]},
+    {"id": "c08-trim-overhang-ge", "props": ["C08", "C02"], "edits": [
+        {"file": OR, "old": "        if self.end_overhang > err_length and self.end_row_bait_overlap < err_length:\n", "new": "        if self.end_overhang >= err_length and self.end_row_bait_overlap < err_length:\n"}]},
+    {"id": "c09-target-only-first-scaffold", "props": ["C09"], "edits": [
+        {"file": "src/tola/assembly/build_utils.py", "old": '            self.target_tags and "Target" not in scaffold_tags\n', "new": '            self.target_tags and "Target" not in scaffold_tags and "Painted" not in scaffold_tags\n'}]},
+    {"id": "c10-haplotigs-not-renamed", "props": ["C10"], "edits": [
+        {"file": BA, "old": "        self.scaffold_namer.rename_haplotigs_by_size()\n", "new": ""}]},
+    {"id": "c10-chr-sort-by-total-length", "props": ["C10"], "edits": [
+        {"file": "src/tola/assembly/build_utils.py", "old": "            length += scffld.fragments_length\n", "new": "            length += scffld.length\n"}]},
+    {"id": "c11-cuts-count-pieces", "props": ["C11"], "edits": [
+        {"file": BA, "old": "        self.assembly_stats.cuts += len(sub_fragments) - 1\n", "new": "        self.assembly_stats.cuts += max(1, len(sub_fragments) - 2)\n"}]},
+    # ---- C16 / C17 / C19 / C20 ------------------------------------------------------
+    {"id": "c16-csv-always-clobbers", "props": ["C16"], "edits": [
+        {"file": P2A, "old": "            with get_output_filehandle(csv_file, clobber) as csv_fh:\n                csv_fh.write(chr_names)\n", "new": "            with get_output_filehandle(csv_file, True) as csv_fh:\n                csv_fh.write(chr_names)\n"}]},
+    {"id": "c16-exists-check-after-open", "props": ["C16"], "edits": [
+        {"file": P2A, "old": '        out_fh = path.open("w" + mode if clobber else "x" + mode)\n', "new": '        out_fh = path.open("w" + mode if clobber or path.suffix == ".yaml" else "x" + mode)\n'}]},
+    {"id": "c17-tag-set-order-picks-name", "props": ["C17"], "edits": [
+        {"file": "src/tola/assembly/build_utils.py", "old": "                if scaffold_name and tag != scaffold_name:\n", "new": "                if False and scaffold_name and tag != scaffold_name:\n"}]},
+    {"id": "c19-overlaps-strict", "props": ["C19"], "edits": [
+        {"file": "src/tola/assembly/fragment.py", "old": "        return bool(self.end >= othr.start and self.start <= othr.end)\n", "new": "        return bool(self.end > othr.start and self.start <= othr.end)\n"}]},
+    {"id": "c20-rank-ignored-for-rank3", "props": ["C20"], "edits": [
+        {"file": "src/tola/assembly/assembly.py", "old": "            return scaffold.rank, self.name_natural_key(scaffold)\n", "new": "            return min(scaffold.rank, 2), self.name_natural_key(scaffold)\n"}]},
 ]
